@@ -466,7 +466,7 @@ func init() {
 	Register(Spec[c34In]{
 		ID: "C34", Suite: "nals", CoqImports: []string{"Common.Media1Util", "Check.C34"},
 		CoqType: "Check.C34.c34_in", CoqRun: "Check.C34.run",
-		Quick: 700, Thorough: 30000, Parallel: 8,
+		Quick: 500, Thorough: 10000, Parallel: 8,
 		Corpus: c34Corpus, Gen: c34Gen, Run: c34Run, Coq: c34Coq, Shrink: c34Shrink,
 	})
 }
